@@ -108,37 +108,36 @@ Qed.
 Lemma yield_from_main : forall s vals, current s = None -> co_yield vals s = (CErr MCO_INVALID_COROUTINE, s).
 Proof. intros s vals E. unfold co_yield. rewrite E. reflexivity. Qed.
 
-Lemma destroy_active_nogc : forall s k c, gcon s && DESTROY_UNREGISTERS_FIRST = false ->
-  get k (cos s) = Some c -> (co_st c = Running \/ co_st c = Normal) ->
+(* refused destroy of an active coroutine, in EVERY build (GC or not): documented error, whole
+   state - including the GC registration - unchanged.  Needs the repaired order of coroutine.destroy. *)
+Lemma destroy_active : forall s k c, get k (cos s) = Some c -> (co_st c = Running \/ co_st c = Normal) ->
   co_destroy k s = (CErr MCO_INVALID_OPERATION, s).
 Proof.
-  intros s k c E G H. unfold co_destroy. rewrite E. unfold mco_destroy. rewrite G.
-  destruct H as [H|H]; rewrite H; reflexivity.
+  intros s k c G H. unfold co_destroy. rewrite destroy_order_fixed, andb_false_r.
+  unfold mco_destroy. rewrite G. destruct H as [H|H]; rewrite H; reflexivity.
 Qed.
 
-(* what the unchanged code does instead when the GC is enabled *)
-Lemma destroy_active_gc : forall s k c, gcon s = true -> DESTROY_UNREGISTERS_FIRST = true ->
-  get k (cos s) = Some c -> co_reg c = true -> (co_st c = Running \/ co_st c = Normal) ->
-  co_destroy k s = (CErr MCO_INVALID_OPERATION, set_cos s (put k (set_reg c false) (cos s))).
+Lemma destroy_nil : forall s k, get k (cos s) = None -> co_destroy k s = (CErr MCO_INVALID_COROUTINE, s).
 Proof.
-  intros s k c E1 E2 G R H. unfold co_destroy. rewrite E1, E2. cbn [andb].
-  unfold gc_unregister. rewrite G, R. unfold mco_destroy. cbn [cos set_cos]. rewrite get_put_same.
-  destruct H as [H|H]; cbn [co_st set_reg]; rewrite H; reflexivity.
+  intros s k G. unfold co_destroy. rewrite destroy_order_fixed, andb_false_r.
+  unfold mco_destroy. rewrite G. reflexivity.
 Qed.
 
-(* ... and a second destroy of that coroutine fails the assertion of GC:unregister *)
-Lemma destroy_unregistered_panics : forall s k c, gcon s = true -> DESTROY_UNREGISTERS_FIRST = true ->
-  get k (cos s) = Some c -> co_reg c = false ->
-  co_destroy k s = (CPanic PANIC_UNREGISTER, s).
+(* a legal destroy removes the object; in a GC build it is unregistered then (it has to be registered) *)
+Lemma destroy_idle : forall s k c, get k (cos s) = Some c -> (co_st c = Suspended \/ co_st c = Dead) ->
+  (gcon s = true -> co_reg c = true) ->
+  co_destroy k s = (COk, set_cos s (del k (cos s))).
 Proof.
-  intros s k c E1 E2 G R. unfold co_destroy. rewrite E1, E2. cbn [andb].
-  unfold gc_unregister. rewrite G, R. reflexivity.
+  intros s k c G H R. unfold co_destroy. rewrite destroy_order_fixed, andb_false_r.
+  unfold mco_destroy. rewrite G.
+  replace (cstate_eqb (co_st c) Suspended || cstate_eqb (co_st c) Dead) with true
+    by (destruct H as [H|H]; rewrite H; reflexivity).
+  destruct (gcon s); simpl; [rewrite (R eq_refl)|]; reflexivity.
 Qed.
 
 (* ---- "an error leaves the state unchanged" *)
 Definition benign (o : op) (s : state) : Prop :=
   match o with
-  | ODestroy k => gcon s && DESTROY_UNREGISTERS_FIRST = false \/ get k (cos s) = None
   | OResume k vals => vals = [] \/ get k (cos s) = None \/ (exists c, get k (cos s) = Some c /\ co_st c = Suspended)
   | OPop k lens => List.length lens <= 1
   | _ => True
@@ -214,14 +213,14 @@ Proof.
     destruct (mco_pop k false len s) as [[e s1] d] eqn:Q. inversion H; subst.
     eapply mco_pop_err; eauto. eapply cres_of_err; eauto.
   - (* destroy *)
-    inversion H as [H1]; clear H. simpl in B. unfold co_destroy in H1.
-    destruct (gcon s && DESTROY_UNREGISTERS_FIRST) eqn:E.
-    + destruct B as [B|B]; [discriminate|].
-      unfold gc_unregister in H1. rewrite B in H1.
-      destruct (mco_destroy k s) as [e s2] eqn:D. inversion H1; subst.
-      eapply mco_destroy_err; eauto. eapply cres_of_err; eauto.
-    + destruct (mco_destroy k s) as [e s2] eqn:D. inversion H1; subst.
-      eapply mco_destroy_err; eauto. eapply cres_of_err; eauto.
+    inversion H as [H1]; clear H. unfold co_destroy in H1.
+    rewrite destroy_order_fixed, andb_false_r in H1.
+    destruct (mco_destroy k s) as [e s2] eqn:D.
+    destruct (is_success e) eqn:Es.
+    + destruct (gcon s); cbn [andb] in H1.
+      * destruct (get k (cos s)) as [c|]; [destruct (co_reg c)|]; inversion H1.
+      * destruct e; simpl in Es; discriminate.
+    + cbn [andb] in H1. inversion H1; subst. eapply mco_destroy_err; eauto. intro; subst; discriminate.
 Qed.
 
 (* the full-strength statement, over all histories and all calls of the library *)
@@ -229,21 +228,21 @@ Definition error_unchanged_full : Prop :=
   forall gc ops o r s', let s := fst (run ops (init gc)) in
   api o s = Some (CErr r, s') -> s' = s.
 
-(* refuted by the unchanged code (GC build): the refused destroy of the running coroutine
-   unregisters it from the collector *)
+(* still refuted, but no longer by destroy: a resume WITH arguments of a coroutine that is not suspended
+   pushes the arguments before the state check and does not take them back (documented order) *)
 Lemma error_unchanged_refuted : ~ error_unchanged_full.
 Proof.
   intro H.
   pose (s := fst (run [OCreate 0 [] false; OResume 0 []] (init true))).
-  pose (s' := snd (co_destroy 0 s)).
-  specialize (H true [OCreate 0 [] false; OResume 0 []] (ODestroy 0) MCO_INVALID_OPERATION s').
-  assert (A : api (ODestroy 0) s = Some (CErr MCO_INVALID_OPERATION, s')) by (vm_compute; reflexivity).
+  pose (s' := snd (co_resume 0 [[7%Z]] s)).
+  specialize (H true [OCreate 0 [] false; OResume 0 []] (OResume 0 [[7%Z]]) MCO_NOT_SUSPENDED s').
+  assert (A : api (OResume 0 [[7%Z]]) s = Some (CErr MCO_NOT_SUSPENDED, s')) by (vm_compute; reflexivity).
   specialize (H A).
-  assert (N : option_map co_reg (get 0 (cos s')) <> option_map co_reg (get 0 (cos s))) by (vm_compute; discriminate).
+  assert (N : option_map co_stored (get 0 (cos s')) <> option_map co_stored (get 0 (cos s))) by (vm_compute; discriminate).
   apply N. fold s in H. rewrite H. reflexivity.
 Qed.
 
-(* two further, documented, exceptions: a resume with arguments pushes them before the state
+(* the two documented exceptions, as witnesses: a resume with arguments pushes them before the state
    check and does not take them back; a multi-value pop is not rolled back *)
 Lemma error_unchanged_refuted_resume_args :
   exists ops o r s', let s := fst (run ops (init false)) in api o s = Some (CErr r, s') /\ s' <> s.
